@@ -51,6 +51,7 @@ fn observe(ws: &Workspace, ev: J, res: &str) -> J {
     if let Ok(v) = ws.evaluate_invocable(nm, "v", &FeelContext::default()) {
       let text = match v {
         Value::String(s) => s,
+        Value::Null(_) => "NOINV".to_string(),
         other => format!("?{}", other),
       };
       evalok.push(json!([nm, text]));
